@@ -23,11 +23,12 @@ class Feed:
     def __init__(self) -> None:
         self.calls = []  # (chunk_len, [messages])
         self.messages = []
-        self.error = None  # (call index, exception)
+        self.error = None  # (first failing call index, exception)
+        self.errors = 0
         self.probes = {}
 
 
-def feed(reader, wire: bytes, cutspec: dict, probe=None, bystander=None) -> Feed:
+def feed(reader, wire: bytes, cutspec: dict, probe=None, bystander=None, keep_going: bool = False) -> Feed:
     """`bystander`: optional (other reader instance, its own byte stream): another connection of the same
     process whose reader is fed between our calls. Instances must not influence each other."""
     out = Feed()
@@ -41,7 +42,11 @@ def feed(reader, wire: bytes, cutspec: dict, probe=None, bystander=None) -> Feed
         try:
             msgs = reader.read(chunk)
         except Exception as ex:  # noqa: BLE001 - reported by C14; other checks count the run as void
-            out.error = (idx, ex)
+            if out.error is None:
+                out.error = (idx, ex)
+            out.errors += 1
+            if keep_going:  # like an event loop that logs the exception and keeps delivering data
+                continue
             break
         out.calls.append((len(chunk), msgs))
         out.messages.extend(msgs)
